@@ -800,7 +800,10 @@ class CompartmentalSystem(Statement):
         )
 
     def to_dict(self) -> dict[str, Any]:
-        comps = [comp for comp in self._g.nodes]
+        # NOTE: Canonical order to be independent of the order of construction
+        comps = sorted(_comps(self._g), key=lambda comp: comp.name)
+        if output in self._g:
+            comps.append(output)
         comps_dicts = tuple(comp.to_dict() for comp in comps)
 
         edges = []
@@ -809,6 +812,7 @@ class CompartmentalSystem(Statement):
             to_n = comps.index(to_comp)
             edge = (from_n, to_n, rate.serialize())
             edges.append(edge)
+        edges.sort(key=lambda edge: edge[0:2])
 
         d = {
             'class': 'CompartmentalSystem',
